@@ -223,7 +223,7 @@ struct World
   std::vector<std::map<std::string, std::vector<Snap>>> got;
   std::vector<nostd::shared_ptr<trace_api::Span>> spans;
   std::vector<std::string> span_ids;
-  const void *resource = nullptr, *scope = nullptr;
+  const void *resource = nullptr, *scope = nullptr, *scope2 = nullptr;
 };
 
 class CaptureExporter final : public sdktrace::SpanExporter
@@ -278,7 +278,8 @@ int64_t event_ts(uint64_t seed)
 const int64_t kExplicitStartSys    = 1600000000123456789ll;
 const int64_t kExplicitStartSteady = 5000000000ll;
 
-nostd::shared_ptr<trace_api::Tracer> g_tracer;
+nostd::shared_ptr<trace_api::Tracer> g_tracer, g_tracer2;
+const int64_t kSysBaseNs = 1700000000ll * 1000000000ll;  // vsim's system clock = base + steady
 
 void start_span(World &w, int s)
 {
@@ -286,13 +287,14 @@ void start_span(World &w, int s)
   val::Scratch sc;
   trace_api::StartSpanOptions opts;
   opts.kind = (trace_api::SpanKind)c.knob(fmt("s%d_kind", s).c_str(), 0);
-  if (c.knob(fmt("s%d_explicit_start", s).c_str(), 0))
-  {
+  // 0 none, 1 both, 2 system time only, 3 steady time only
+  int start_mode = (int)c.knob(fmt("s%d_explicit_start", s).c_str(), 0);
+  if (start_mode == 1 || start_mode == 2)
     opts.start_system_time =
         common::SystemTimestamp(std::chrono::nanoseconds(kExplicitStartSys + s));
+  if (start_mode == 1 || start_mode == 3)
     opts.start_steady_time =
         common::SteadyTimestamp(std::chrono::nanoseconds(kExplicitStartSteady + s));
-  }
   uint64_t aseed = (uint64_t)c.knob(fmt("s%d_attr_seed", s).c_str(), 0);
   uint64_t lseed = (uint64_t)c.knob(fmt("s%d_link_seed", s).c_str(), 0);
   std::vector<val::KV> kvs = val::gen_kvs(aseed, "start.");
@@ -315,12 +317,14 @@ void start_span(World &w, int s)
   std::string nm = name_of((uint64_t)c.knob(fmt("s%d_name_seed", s).c_str(), 0));
   ev(E_START_INV, s, vsim::peek_now_ns());
   nostd::string_view nview = sc.view(nm);
+  // the second span comes from a second tracer: its scope must be that tracer's
+  auto &tracer = s == 1 ? g_tracer2 : g_tracer;
   if (nlinks)
-    w.spans[s] = g_tracer->StartSpan(nview, attrs,
+    w.spans[s] = tracer->StartSpan(nview, attrs,
                                      trace_api::SpanContextKeyValueIterableView<decltype(links)>(links),
                                      opts);
   else
-    w.spans[s] = g_tracer->StartSpan(nview, attrs, opts);
+    w.spans[s] = tracer->StartSpan(nview, attrs, opts);
   sc.release();
   ev(E_START_RET, s, vsim::peek_now_ns());
   auto ctx      = w.spans[s]->GetContext();
@@ -424,6 +428,8 @@ void body(const Case &c)
     g_tracer   = prov.GetTracer("span-engine", "1.0");
     w.resource = &prov.GetResource();
     w.scope    = &static_cast<sdktrace::Tracer *>(g_tracer.get())->GetInstrumentationScope();
+    g_tracer2  = prov.GetTracer("span-engine-2", "2.0");
+    w.scope2   = &static_cast<sdktrace::Tracer *>(g_tracer2.get())->GetInstrumentationScope();
     for (int s = 0; s < nspans; ++s)
       start_span(w, s);
     run_tasks(c, [&](int i, const TaskProg &t) { run_program(w, i, t); });
@@ -435,7 +441,8 @@ void body(const Case &c)
       ev(E_RELEASE_RET, s, vsim::peek_now_ns());
     }
     prov.ForceFlush();
-    g_tracer = nostd::shared_ptr<trace_api::Tracer>(nullptr);
+    g_tracer  = nostd::shared_ptr<trace_api::Tracer>(nullptr);
+    g_tracer2 = nostd::shared_ptr<trace_api::Tracer>(nullptr);
   }
   W = nullptr;
   static World keep;
@@ -621,17 +628,23 @@ void check(const Case &c, const vsim::RunResult &)
     // ---- fields that do not depend on the cut
     if (g.resource != w.resource)
       vsim::report("C04.resource", fmt("span %d: exported resource is not the provider's", s));
-    if (g.scope != w.scope)
-      vsim::report("C04.scope", fmt("span %d: exported scope is not the tracer's", s));
-    int64_t start_steady;
-    if (c.knob(fmt("s%d_explicit_start", s).c_str(), 0))
+    if (g.scope != (s == 1 ? w.scope2 : w.scope))
+      vsim::report("C04.scope", fmt("span %d: exported scope is not its tracer's", s));
+    int64_t start_steady = -1;
+    int start_mode       = (int)c.knob(fmt("s%d_explicit_start", s).c_str(), 0);
+    if (start_mode == 1 || start_mode == 2)
     {
       if (g.start_ns != kExplicitStartSys + s)
         vsim::report("C04.start_time", fmt("span %d: explicit start time not preserved", s));
-      start_steady = kExplicitStartSteady + s;
     }
-    else
-      start_steady = -1;
+    else if (g.start_ns < kSysBaseNs + start_tinv[s] || g.start_ns > kSysBaseNs + start_tret[s] + 4)
+      vsim::report("C04.start_time",
+                   fmt("span %d: implicit start time %lld is outside the StartSpan call "
+                       "[%lld, %lld]",
+                       s, (long long)g.start_ns, (long long)(kSysBaseNs + start_tinv[s]),
+                       (long long)(kSysBaseNs + start_tret[s])));
+    if (start_mode == 1 || start_mode == 3)
+      start_steady = kExplicitStartSteady + s;
     // duration: matches one End call that could have been the effective one
     {
       bool dur_ok = false;
@@ -768,7 +781,7 @@ void generate(const std::string &, Rng &wl, Rng &fl, Case &c)
   for (int s = 0; s < nspans; ++s)
   {
     c.set(fmt("s%d_kind", s).c_str(), (int64_t)wl.below(5));
-    c.set(fmt("s%d_explicit_start", s).c_str(), wl.chance(0.4));
+    c.set(fmt("s%d_explicit_start", s).c_str(), wl.chance(0.5) ? 0 : (int64_t)wl.range(1, 3));
     c.set(fmt("s%d_attr_seed", s).c_str(), (int64_t)(wl.next() >> 2));
     c.set(fmt("s%d_link_seed", s).c_str(), (int64_t)(wl.next() >> 2));
     c.set(fmt("s%d_name_seed", s).c_str(), (int64_t)(wl.next() >> 2));
